@@ -15,7 +15,7 @@
      - run exit OnSignal (returns nil / a cancellation error once signalled or its context is
        cancelled), Free (may return anything at any time), Never.
    [fix_c09] selects the candidate repair hooks/fix-c09-composite-stop-during-reload.patch
-   (Run takes reloadMu around its stopAllRunnables). *)
+   (Run takes reloadMu around its stopAllRunnables); [fix_c11] the one for hasMembershipChanged. *)
 From Coq Require Import List NArith Bool.
 From GS Require Import Errs.
 Import ListNotations.
@@ -27,7 +27,7 @@ Inductive rexit := OnSignal | Free | Never.
 Inductive rkind := RWC | RPlain | RNone.   (* has ReloadWithConfig / only Reload / neither *)
 
 Record cspec := mkSpec { c_name : N; c_stop : sstyle; c_exit : rexit; c_rk : rkind }.
-Record params := mkParams { pool : list cspec; fix_c09 : bool }.
+Record params := mkParams { pool : list cspec; fix_c09 : bool; fix_c11 : bool }.
 
 Definition default_spec : cspec := mkSpec 0%N NonBlocking OnSignal RNone.
 Definition spec_of (P : params) (c : N) : cspec := nth (N.to_nat c) (pool P) default_spec.
@@ -37,10 +37,28 @@ Definition name_of (P : params) (c : N) : N := c_name (spec_of P c).
 Definition entry := (N * N)%type.
 Definition config := list entry.
 
-(* hasMembershipChanged, as written: length test, then every new name must be an old name *)
+Fixpoint insert_N (x : N) (l : list N) : list N :=
+  match l with
+  | [] => [x]
+  | y :: t => match N.compare x y with
+              | Lt => x :: l
+              | Eq => l
+              | Gt => y :: insert_N x t
+              end
+  end.
+(* sorted, duplicate-free *)
+Definition sort_N (l : list N) : list N := fold_right insert_N [] l.
+
+Definition names (P : params) (cf : config) : list N := map (fun e => name_of P (fst e)) cf.
+
+(* hasMembershipChanged, as written: length test, then every new name must be an old name.
+   [fix_c11] selects the candidate repair hooks/fix-c11-composite-duplicate-entry-names.patch
+   (additionally: the number of distinct new names equals the number of distinct old names). *)
 Definition membership_changed (P : params) (old new : config) : bool :=
   if negb (Nat.eqb (length old) (length new)) then true
-  else existsb (fun e => negb (mem_N (name_of P (fst e)) (map (fun o => name_of P (fst o)) old))) new.
+  else if existsb (fun e => negb (mem_N (name_of P (fst e)) (names P old))) new then true
+  else if fix_c11 P then negb (Nat.eqb (length (sort_N (names P new))) (length (sort_N (names P old))))
+  else false.
 
 (* ------------------------------------------------------------------ the finite state machine *)
 
@@ -82,7 +100,10 @@ Inductive spc := SCalled | SWaiting | SDone.
 
 Inductive tpc :=
 | TIdle | TCalled | TBootLock | TBootCb | TBootLaunch | TToRunning | TSelect | TTransIf
-| TTearLock | TStopBegin | TStopWait | TToStopped | TRet (r : oerr) | TDone (r : oerr).
+| TTearLock | TStopBegin | TStopWait | TToStopped
+| TRet (r : oerr)      (* result computed; deferred runCancel()/done() not yet run *)
+| TOut (r : oerr)      (* deferred calls done; the caller has not yet observed the return *)
+| TDone (r : oerr).
 
 Inductive cbret := CbSome (c : config) | CbNil | CbErr.
 
@@ -160,7 +181,7 @@ Inductive label :=
 | LRunCall | LReloadCall (k : nat) | LStopApi (k : nat) | LCancel | LState (st : fstate)
 (* Run *)
 | LRunBegin | LToRunning | LSelCtx | LSelStop | LSelErr | LTransIf | LTearLock | LToStopped
-| LRunRet (r : oerr)
+| LRunExit | LRunRet (r : oerr)
 (* boot / stopAllRunnables / callback, by Run or by a reloader *)
 | LBootLock (o : owner) | LBootLaunch (o : owner)
 | LStopBegin (o : owner) | LStopJoin (o : owner)
@@ -177,17 +198,6 @@ Inductive label :=
 | LSSignal (k : nat) | LSRet (k : nat).
 
 (* ------------------------------------------------------------------ helpers *)
-
-Fixpoint insert_N (x : N) (l : list N) : list N :=
-  match l with
-  | [] => [x]
-  | y :: t => match N.compare x y with
-              | Lt => x :: l
-              | Eq => l
-              | Gt => y :: insert_N x t
-              end
-  end.
-Definition sort_N (l : list N) : list N := fold_right insert_N [] l.
 
 Definition classify (r : oerr) : rescls :=
   match r with
@@ -270,6 +280,14 @@ Definition spawn_workers (o : owner) (es : config) : list worker :=
   map (fun e => mkWorker o (fst e) WNew) (rev es).
 Definition spawn_kids (o : owner) (g : nat) (es : config) : list kid :=
   map (fun e => mkKid g (fst e) KLaunched o) es.
+
+(* boot: "if len(cfg.Entries) > cap(r.serverErrors) && state == Booting { r.serverErrors = make(...) }" *)
+Definition realloc (s : state) : state :=
+  match fsm s with
+  | FBooting => if Nat.ltb (errcap s) (length (entries_of s))
+                then set_errq [] (set_errcap (length (entries_of s)) s) else s
+  | _ => s
+  end.
 
 (* pc access for the two procedures shared by Run and the reloaders *)
 Definition at_boot_lock (o : owner) (s : state) : bool :=
@@ -387,10 +405,14 @@ Definition step (P : params) (s : state) (l : label) : option state :=
       end
     | _ => None
     end
+  | LRunExit =>
+    match runt s with
+    | TRet r => Some (set_runt (TOut r) (set_lc_done true (set_rctx true s)))
+    | _ => None
+    end
   | LRunRet r =>
     match runt s with
-    | TRet r' =>
-      if oerr_eqb r r' then Some (set_runt (TDone r') (set_lc_done true (set_rctx true s))) else None
+    | TOut r' => if oerr_eqb r r' then Some (set_runt (TDone r') s) else None
     | _ => None
     end
   (* ---- boot ---- *)
@@ -405,13 +427,8 @@ Definition step (P : params) (s : state) (l : label) : option state :=
     else None
   | LBootLaunch o =>
     if at_boot_launch o s then
-      let es := entries_of s in
-      let n := length es in
-      let s1 := match fsm s with
-                | FBooting => if Nat.ltb (errcap s) n then set_errq [] (set_errcap n s) else s
-                | _ => s
-                end in
-      let s2 := set_kids (kids s1 ++ spawn_kids o (S (gen s1)) es) (set_gen (S (gen s1)) s1) in
+      let s1 := realloc s in
+      let s2 := set_kids (kids s ++ spawn_kids o (S (gen s)) (entries_of s)) (set_gen (S (gen s)) s1) in
       Some (set_opc o TToRunning RFinish (set_run_mu None s2))
     else None
   (* ---- stopAllRunnables ---- *)
@@ -717,7 +734,7 @@ Definition owners (s : state) : list owner := ORun :: map ORel (seq 0 (length (r
 
 (* candidate internal labels *)
 Definition taus (s : state) : list label :=
-  [LRunBegin; LToRunning; LSelCtx; LSelStop; LSelErr; LTransIf; LTearLock; LToStopped]
+  [LRunBegin; LToRunning; LSelCtx; LSelStop; LSelErr; LTransIf; LTearLock; LToStopped; LRunExit]
   ++ flat_map (fun o => [LBootLock o; LBootLaunch o; LStopBegin o; LStopJoin o]) (owners s)
   ++ map LKSend (seq 0 (length (kids s)))
   ++ map LWUnblock (seq 0 (length (workers s)))
@@ -731,7 +748,7 @@ Definition vis (s : state) (e : event) : list label :=
   | EApiCall OpRun _ => [LRunCall]
   | EApiCall OpReload k => [LReloadCall k]
   | EApiCall OpStop k => [LStopApi k]
-  | EApiRet OpRun _ _ => match runt s with TRet r => [LRunRet r] | _ => [] end
+  | EApiRet OpRun _ _ => match runt s with TOut r => [LRunRet r] | _ => [] end
   | EApiRet OpReload k _ => [LRlRet k]
   | EApiRet OpStop k _ => [LSRet k]
   | ERunCall c => map (fun i => LKRun i c) (seq 0 (length (kids s)))
@@ -772,6 +789,7 @@ Definition ktpc (p : tpc) : list N :=
   | TIdle => [0] | TCalled => [1] | TBootLock => [2] | TBootCb => [3] | TBootLaunch => [4]
   | TToRunning => [5] | TSelect => [6] | TTransIf => [7] | TTearLock => [8] | TStopBegin => [9]
   | TStopWait => [10] | TToStopped => [11] | TRet r => 12 :: koerr r | TDone r => 13 :: koerr r
+  | TOut r => 14 :: koerr r
   end%N.
 Definition kkpc (p : kpc) : list N :=
   match p with KLaunched => [0] | KInRun => [1] | KExited e => 2 :: koerr e | KDone => [3] end%N.
